@@ -25,6 +25,9 @@ MODELS = {
                       names={'inp': 'Sheet1!$B$1'}, inputs=['A1', 'B1']),
     'sheets': dict(cells={'Sheet1!A1': 4, 'Data!A1': 10, 'Data!B1': '=A1*2', 'Sheet1!B1': '=Data!B1+A1', 'Sheet1!C1': '=B1+Data!A1'},
                    names={'inp': 'Data!$A$1'}, inputs=['Sheet1!A1', 'Data!A1']),
+    # a range of 150 rows of which only the first three are used when it is first evaluated; A140 gets its first value later
+    'growing': dict(cells={'A1': 1, 'A2': 2, 'A3': 3, 'C1': '=SUM(A1:A150)', 'D1': '=COUNT(A1:A150)', 'E1': '=C1*10'},
+                    names={'inp': 'Sheet1!$A$1'}, inputs=['A1'], late=['A140']),
     # Q9 holds nothing when the model is built: a cell that receives its first value later
     'late': dict(cells={'A1': 1, 'B1': '=A1+Q9', 'C1': '=B1*2', 'D1': '=IF(ISBLANK(Q9),"none",Q9)'},
                  names={'inp': 'Sheet1!$A$1'}, inputs=['A1'], late=['Q9']),
